@@ -89,6 +89,9 @@ class C09(Prop):
             "the device, frames written, handler flags, live library threads, interface state, device state, subscriber "
             "lists, client view and requested vectors, reported description are compared with the model; a subset with "
             "real threads against the real DummyDev compares threading.enumerate() before connect / after disconnect; "
+            "devices whose channel names are not UTF-8 (connect raises in mid-handshake and must leave the handler off) or "
+            "contain a NUL; oracle only: connects during which the k-th interface write raises OSError, 2 sessions over a "
+            "link whose idle read blocks 9 s; "
             "distinct = distinct line; non-trivial = history containing a connect")
     assumptions = ["virtual-time runtime (harness/vsim.py) preserves queue/lock/thread semantics",
                    "reference device (harness/refdev.py) is a conforming NxScope device",
@@ -138,6 +141,18 @@ class C09(Prop):
         for _ in range(60 if T else 20):
             yield ll.mk_line("nx", rng.randrange(4), [], [], rng.randrange(2), rng.choice([0, 0, 8]), [],
                              [rng.choice(zero) for _ in range(rng.randrange(2, 12))]), "zero-channels"
+        # R4-C-M4 / C09-r4m1: a channel name the client cannot decode (connect raises in mid-handshake: the handler must be
+        # left off, and stay a working state machine) or with a NUL (the client sees a C string)
+        for mode, tail in (("nx", ["X", "S", "e0!", "C", "s1", "W", "X"]), ("comm", ["X", "e0", "S", "C", "W", "X", "X"])):
+            for j, bad in enumerate(ll.BAD_NAMES):
+                for k in ((0, 2) if T else (j % 3,)):
+                    chans = list(P3)
+                    chans[k] = chans[k][:3] + (bad,)
+                    yield ll.mk_line(mode, 3, [0, 1, 0], [0, 5, 0], j % 2, (0, 4)[j % 2], chans, ["C"] + tail), "bad-name"
+            for j, nul in enumerate(ll.NUL_NAMES):
+                chans = list(P3)
+                chans[j % 3] = chans[j % 3][:3] + (nul,)
+                yield ll.mk_line(mode, 3, [0, 1, 0], [0, 5, 0], 1, 0, chans, ["C", "e0", "W", "S", "X", "C", "X"]), "nul-name"
         # the largest device
         rxp, ch255 = ll.gen_desc(rng, 255)
         yield ll.mk_line("nx", 3, [0] * 254 + [1], [0] * 255, 1, rxp, ch255, ["C", "e3!", "S", "s-255", "X", "C", "X"]), "255-channels"
@@ -148,7 +163,7 @@ class C09(Prop):
             mode = "nx" if it % 3 else "comm"
             en = [rng.random() < 0.4 for _ in range(n)]
             div = [rng.choice([0, 0, 7]) for _ in range(n)]
-            rxp, chans = ll.gen_desc(rng, n, plain=rng.random() < 0.3)
+            rxp, chans = ll.gen_desc(rng, n, plain=rng.random() < 0.3, p_nul=0.1, p_bad=0.06)
             calls = gen_calls(rng, n, rng.randrange(1, 26), mode, p_fail=rng.choice([0.0, 0.0, 0.15]))
             yield ll.mk_line(mode, rng.randrange(4), en, div, rng.randrange(2), rxp, chans, calls), f"random-{mode}"
 
@@ -186,7 +201,8 @@ class C09(Prop):
                      "expected": "disconnect completes", "observed": info["final_disconnect"]}
         elif info["live_end"]:
             final = {"key": "thread-left", "what": f"threads alive after final disconnect: {info['live_end']}", "expected": "none", "observed": info["live_end"]}
-        want = (len(p["en"]), p["flags"], p["rxp"], tuple(p["chans"]))
+        # (a name is a C string: the client reports the text before the first NUL)
+        want = (len(p["en"]), p["flags"], p["rxp"], tuple((t, v, m, nm.split(b"\x00")[0]) for t, v, m, nm in p["chans"]))
         for d in info["descs"]:
             if d != info["descs"][0]:
                 return {"key": "description-changed", "what": "a reconnect reported a different static description",
@@ -195,8 +211,11 @@ class C09(Prop):
                 return {"key": "description-changed", "what": "connect reports a static description that is not the device's",
                         "expected": want, "observed": d}
         connected = False
+        bound = ll.call_bound()
+        healthy = ll.names_ok(p)   # the device's channel infos can be decoded: connect has no excuse to fail
         clean = True               # every request of the current session was acknowledged so far
         last_start = None          # payload of the last start/stop request the device got in the current session
+        failed_connect = False
         for i, r in enumerate(rich):
             c = r["call"].rstrip("!")
             if not (r["ans"] is None or all(a == "a" for a in r["ans"])):
@@ -205,17 +224,25 @@ class C09(Prop):
                 if k == "start":
                     last_start = pl
             hist = [x["call"] for x in rich[:i + 1]]
-            if r["res"].split(":")[0] not in ("ok", "ack", "assert", "attr", "index", "value"):
-                return {"key": "unexpected-exception", "what": f"call {r['call']} raised {r['res']}", "expected": "ok, or the exception of a call "
-                        "on a handler without device / with an out-of-range argument", "observed": r["res"], "history": hist}
-            if r["dt"] > 7.0:
+            # (which exception a refused call raises — or whether it raises at all — is not the property's business:
+            #  the clauses below judge what the call did to the device, the threads and the clock)
+            if r["dt"] > bound:
                 return {"key": "does-not-terminate", "what": f"call {r['call']} blocked for {r['dt']:.1f} virtual seconds",
-                        "expected": "at most 3 ACK timeouts, 2 drains, 2 thread joins", "observed": r["dt"], "history": hist}
+                        "expected": f"returns within {bound:.0f} s (10 x the largest time-out the source uses, at least 10 s)",
+                        "observed": r["dt"], "history": hist}
             if nx and not connected and c != "C":
                 # calls on the disconnected high-level handler never reach the device, start threads or block
-                if r["nreq"] or r["nwrites"] or r["live"] or r["dt"] > 1e-9:
+                # (threads a failed connect left behind are judged at the next disconnect, not charged to this call)
+                new_live = sorted(set(r["live"]) - set(rich[i - 1]["live"] if (i and failed_connect) else ()))
+                if r["nreq"] or r["nwrites"] or new_live or r["dt"] > 1e-9:
                     return {"key": "disconnected-not-inert", "what": f"call {r['call']} while disconnected reached the device / started a thread / blocked",
-                            "expected": "inert", "observed": f"requests={r['nreq']} writes={r['nwrites']} live={r['live']} dt={r['dt']}", "history": hist}
+                            "expected": "inert", "observed": f"requests={r['nreq']} writes={r['nwrites']} live={new_live} dt={r['dt']}", "history": hist}
+            if c == "C" and r["res"] != "ok" and not connected and (not healthy or i in p["wfail"]):
+                # a connect that cannot complete (an interface write failed in mid-handshake, a channel info that
+                # cannot be decoded) may raise; the handler is then still disconnected and is judged as such: by the
+                # clauses on calls made while disconnected, and at the next disconnect (no thread, no description)
+                failed_connect = True
+                continue
             if c == "C":
                 if r["res"] != "ok" or not r["has_desc"]:
                     return {"key": "no-description", "what": f"connect: {r['res']}, description reported: {r['has_desc']}", "expected": "ok with a description",
@@ -236,7 +263,10 @@ class C09(Prop):
                 was = connected
                 connected = False
                 if r["has_desc"] or r["live"]:
-                    return {"key": "after-disconnect", "what": "after disconnect: description still reported / thread alive",
+                    return {"key": "after-disconnect", "what": "after disconnect: description still reported / thread alive"
+                            + (" (an earlier connect of this history raised in mid-handshake: " + ", ".join(
+                                f"call {k} {x['res']}" for k, x in enumerate(rich[:i]) if x["call"] == "C" and x["res"] != "ok") + ")"
+                               if failed_connect else ""),
                             "expected": "no description, no thread", "observed": f"dev={r['has_desc']} live={r['live']}", "history": hist}
                 if nx and was:
                     # told to stop: the last start/stop request of the session is a stop (connect itself sends one)
@@ -250,7 +280,7 @@ class C09(Prop):
                                 "expected": "all channels disabled, stream stopped", "observed": f"en={r['dev_en']} started={r['dev_started']}", "history": hist}
         if final:
             return final
-        if not meta:
+        if not meta or failed_connect or p["wfail"]:
             return None
         # idempotence as a relation between histories: a connect on a connected handler and a disconnect on a
         # disconnected one are no-ops, so dropping them changes nothing any other call observes
@@ -315,7 +345,30 @@ class C09(Prop):
                             "observed": repr(res)})
         return out
 
+    def fault_lines(self, thorough=False):
+        """connects during which an interface write raises OSError (the model has no such event: judged by the oracle
+        only): whatever connect does then, after the next disconnect no library thread may be alive and no description
+        reported, and a later healthy connect / disconnect must be a clean session"""
+        P3 = ll.plain_chans(3)
+        out = []
+        for mode in ("nx", "comm"):
+            for rxp in ((0, 4) if thorough else (0,)):
+                for k in range(1, 6 + (1 if rxp else 0)):      # stop, cmninfo, [padding], chinfo 0..2
+                    for calls, wf in ((["C", "X", "X"], {0: k}), (["C", "S", "X", "C", "e0", "W", "X"], {0: k}),
+                                      (["C", "C", "X", "C", "X"], {0: k, 1: 6 - k})):
+                        if not thorough and len(calls) == 5 and k % 2:
+                            continue
+                        out.append(ll.mk_line(mode, 3, [0, 1, 0], [0, 5, 0], k % 2, rxp, P3, calls, wfail=wf))
+        return out
+
     def extra_checks(self, rng, tier, ev):
+        faults = self.fault_lines(tier == "thorough")
+        ev["coverage"]["write_fault_sessions"] = len(faults)
+        for l in faults:
+            v = self.oracle(l)
+            if v:
+                v["case"] = l
+                return [v]
         slow = self.slow_read_sessions()
         ev["coverage"]["slow_read_sessions"] = 2
         if slow:
